@@ -8,7 +8,10 @@
    (candidate bytes, proofs, log ids, database faults), and all behaviours of the oracles:
      H (SHA-256), idhash (configured logs), decode (encoding/json), sig_ok (log signature
      verdict), sign / verify (witness key; only sign-then-verify-succeeds is assumed).
-   [strict] = false is /repo as it is, true is /repo + pending_fixes/C19-1. *)
+   [strict] = false is /repo as it is, true is /repo + pending_fixes/C19-1 (32-byte proof nodes);
+   [ch] = false is /repo as it is, true is /repo + pending_fixes/C19-2 (refusals answered with
+   the held STH cosigned instead of the stored bytes).  Every theorem holds for both values of
+   both, except successor_extends_predecessor, whose unconditional form needs strict = true. *)
 From Coq Require Import String.
 From Coq Require Import NArith List Bool.
 From Coq.Strings Require Import Byte.
@@ -47,14 +50,15 @@ Print Assumptions audit_paths_complete.
 (* stored (hence cosigned) only if it carries a valid signature of the configured log:
    whatever row the table holds after any execution parses under its own log id, i.e. the
    log is configured, the bytes decode, the id inside matches (or was absent) and the log's
-   signature verdict on it is "valid" *)
+   signature verdict on it is "valid"; and the bytes are those of some Update of the execution *)
 Theorem stored_only_if_log_signed :
   forall H hlen strict ch idhash decode sig_ok sign (threads : list (list op)) tr id raw,
   interleaving threads tr ->
   lookup (run_state H hlen strict ch idhash decode sig_ok sign [] tr) id = Some raw ->
-  exists p h p0, parse idhash decode sig_ok raw id = inl p
+  (exists p h p0, parse idhash decode sig_ok raw id = inl p
     /\ idhash id = Some (Some h) /\ decode raw = Some p0 /\ sig_ok id p = true /\ p_logid p = h
-    /\ p_size p = p_size p0 /\ p_root p = p_root p0.
+    /\ p_size p = p_size p0 /\ p_root p = p_root p0)
+  /\ (exists pf f, In (OUpdate id raw pf f) tr).
 Proof. exact stored_only_if_log_signed_lemma. Qed.
 Print Assumptions stored_only_if_log_signed.
 
